@@ -80,6 +80,8 @@ func runHelpers(o *core.Options, r *core.Report, col *collector) {
 		sampled := false
 		r.Parallel((g.n+chunk-1)/chunk, func(ci int) {
 			var st adStat
+			devs := devLocal{}
+			defer func() { col.merge(devs) }()
 			for i := ci * chunk; i < g.n && i < (ci+1)*chunk; i++ {
 				hc := g.at(i)
 				class, desc, tr, stable := repro(hc)
@@ -108,7 +110,14 @@ func runHelpers(o *core.Options, r *core.Report, col *collector) {
 					continue
 				}
 				st.Deviating++
-				r.Violate(signature(hc.name, class), fmt.Sprintf("%s inputs=%s %s script=%q: %s; observed %v", hc.name, insKey(c.Inputs), c.Extra, c.Script, desc, tr), c)
+				full := fmt.Sprintf("%s inputs=%s %s script=%q: %s; observed %v", hc.name, insKey(c.Inputs), c.Extra, c.Script, desc, tr)
+				devs.note(signature(hc.name, class), func() string {
+					items := 0
+					for _, in := range c.Inputs {
+						items += len(in.Items)
+					}
+					return fmt.Sprintf("%02d|%02d|%02d|%03d|%s|%s|%04d|%s", len(c.Inputs), items, len(c.Script), len(c.Extra), insKey(c.Inputs), c.Extra, c.Param, c.Script)
+				}, func() (string, Case) { return full, c })
 			}
 			r.Eval(st.Cases)
 			col.add(g.name, st)
@@ -179,7 +188,7 @@ func skipToCases(o *core.Options) []*helperCase {
 			out = append(out, &helperCase{name: "iterator.SkipTo", c: c, nt: nontrivial(c.Inputs), run: func() (string, string, []string) {
 				e := newEnv(in.term() == termCancel)
 				defer e.done()
-				s := cDoc.stub(e, 0, in)
+				s := cPlain.stub(e, 0, in)
 				err := iterator.SkipTo(e.ctx, s, target)
 				res := obs{K: 'o'}
 				if err != nil {
@@ -345,14 +354,18 @@ func runStream(ins []InSpec, mask int, script string) (class, desc string, tr []
 	defer e.done()
 	ch := make(chan *iterator.Msg, len(ins)+1)
 	ref := &refStream{}
+	car := cDoc
+	if strings.IndexByte(script, 'K') >= 0 {
+		car = cPlain // the skip target "doc:b" must be able to equal an item
+	}
 	for i, in := range ins {
 		if mask&(1<<i) != 0 {
 			ch <- &iterator.Msg{Err: errInjected}
 			ref.q = append(ref.q, nil)
 			continue
 		}
-		ch <- &iterator.Msg{Iter: cDoc.stub(e, i, in)}
-		ref.q = append(ref.q, cDoc.rin(i, in))
+		ch <- &iterator.Msg{Iter: car.stub(e, i, in)}
+		ref.q = append(ref.q, car.rin(i, in))
 	}
 	close(ch)
 	s := iterator.NewStream(0, ch)
@@ -794,8 +807,12 @@ func isOrderedCases() []*helperCase {
 		{"storage.NewConditionsFilteredTupleKeyIterator", 1, func(f []bool) bool {
 			return storage.NewConditionsFilteredTupleKeyIterator(tk(f[0]), func(*openfgav1.TupleKey) (bool, error) { return true, nil }).IsOrdered()
 		}, fwd, "forwards from the inner iterator"},
-		{"storage.NewOrderedCombinedIterator", 2, func(f []bool) bool { return storage.NewOrderedCombinedIterator(storage.ObjectMapper(), tups(f)...).IsOrdered() }, and, "returns true only if all source iterators are ordered"},
-		{"storage.NewOrderedCombinedIterator", 3, func(f []bool) bool { return storage.NewOrderedCombinedIterator(storage.UserMapper(), tups(f)...).IsOrdered() }, and, "returns true only if all source iterators are ordered"},
+		{"storage.NewOrderedCombinedIterator", 2, func(f []bool) bool {
+			return storage.NewOrderedCombinedIterator(storage.ObjectMapper(), tups(f)...).IsOrdered()
+		}, and, "returns true only if all source iterators are ordered"},
+		{"storage.NewOrderedCombinedIterator", 3, func(f []bool) bool {
+			return storage.NewOrderedCombinedIterator(storage.UserMapper(), tups(f)...).IsOrdered()
+		}, and, "returns true only if all source iterators are ordered"},
 		{"storage.WrapIterator(UsersetKind)", 1, func(f []bool) bool { return storage.WrapIterator(storage.UsersetKind, tk(f[0])).IsOrdered() }, fwd, "forwards from the inner iterator"},
 		{"storage.WrapIterator(TTUKind)", 1, func(f []bool) bool { return storage.WrapIterator(storage.TTUKind, tk(f[0])).IsOrdered() }, fwd, "forwards from the inner iterator"},
 		{"storage.WrapIterator(ObjectIDKind)", 1, func(f []bool) bool { return storage.WrapIterator(storage.ObjectIDKind, tk(f[0])).IsOrdered() }, fwd, "forwards from the inner iterator"},
